@@ -67,7 +67,10 @@ def _inv(i, dmin, dmax):
 def _scene(ny, nx, win, subpix, dmin, dmax, i, seed, **kw):
     sc = {"ny": ny, "nx": nx, "win": win, "subpix": subpix, "measure": ["sad", "ssd", "zncc", "census"][(i // 3) % 4],
           "dmin": dmin, "dmax": dmax, "lmask": None, "rmask": None, "grid": None, "inv": _inv(i, dmin, dmax),
-          "img": {"kind": "generic", "seed": seed, "shift": [1, -1, 0, 2][i % 4]}}
+          "img": {"kind": "generic", "seed": seed, "shift": [1, -1, 0, 2][i % 4]},
+          # two scenes out of three are tiles whose coordinates do not start at 0 (flags are a matter of array
+          # position relative to the image borders, never of the coordinate values)
+          "origin": [(0, 0), (2, 5), (0, 11)][i % 3]}
     if sc["measure"] == "census" and win == 1:
         sc["measure"] = "sad"
     sc.update(kw)
